@@ -35,21 +35,24 @@ def main():
     if not demo_files:
         print(sid, "REJECT: no demo go files")
         return 1
-    # target package directory
+    # target package directory of every demo file (a demonstration may span several packages)
     text = json.dumps(meta)
     m = re.findall(r"rolling-shutter/((?:[A-Za-z0-9_]+/)+)", text)
-    pkg = None
-    pkgname = re.search(r"^package (\w+)", open(os.path.join(demo_dir, demo_files[0])).read(), re.M).group(1)
-    for cand in m:
-        cand = cand.rstrip("/")
-        d = os.path.join("/repo/rolling-shutter", cand)
-        if os.path.isdir(d) and any(f.endswith(".go") and re.search(r"^package %s(_test)?\b" % re.escape(pkgname.replace("_test", "")), open(os.path.join(d, f)).read(), re.M)
-                                    for f in os.listdir(d)):
-            pkg = cand
-            break
-    if not pkg:
-        print(sid, "REJECT: cannot determine the demo's package directory from meta.json; candidates", m[:5])
-        return 1
+    filepkg = {}
+    for f in demo_files:
+        pkgname = re.search(r"^package (\w+)", open(os.path.join(demo_dir, f)).read(), re.M).group(1)
+        for cand in m:
+            cand = cand.rstrip("/")
+            d = os.path.join("/repo/rolling-shutter", cand)
+            if os.path.isdir(d) and any(g.endswith(".go") and re.search(r"^package %s(_test)?\b" % re.escape(pkgname.replace("_test", "")), open(os.path.join(d, g)).read(), re.M)
+                                        for g in os.listdir(d)):
+                filepkg[f] = cand
+                break
+        if f not in filepkg:
+            print(sid, "REJECT: cannot determine the package directory of demo file", f, "; candidates", m[:5])
+            return 1
+    pkg = filepkg[demo_files[0]]
+    pkgs_demo = sorted(set(filepkg.values()))
     tests = []
     for f in demo_files:
         tests += re.findall(r"^func (Test\w+)\(", open(os.path.join(demo_dir, f)).read(), re.M)
@@ -66,10 +69,10 @@ def main():
 
         def demo():
             for f in demo_files:
-                shutil.copy(os.path.join(demo_dir, f), os.path.join(mod, pkg, f))
-            rc, o = sh(["go", "test", "-vet=off", "-count=1", "-run", run_re, "./" + pkg + "/"], cwd=mod)
+                shutil.copy(os.path.join(demo_dir, f), os.path.join(mod, filepkg[f], f))
+            rc, o = sh(["go", "test", "-vet=off", "-count=1", "-run", run_re] + ["./" + q + "/" for q in pkgs_demo], cwd=mod)
             for f in demo_files:
-                os.remove(os.path.join(mod, pkg, f))
+                os.remove(os.path.join(mod, filepkg[f], f))
             sh(["git", "-C", WT, "checkout", "--", "rolling-shutter/go.mod", "rolling-shutter/go.sum"])
             return rc, o
 
@@ -116,7 +119,7 @@ def main():
     meta_out = {
         "id": sid, "property": meta.get("property"), "summary": meta.get("summary"), "why_it_breaks": meta.get("why_it_breaks"),
         "needs_to_manifest": meta.get("needs_to_manifest"), "files_changed": res["files_changed"],
-        "demo": {"package_dir": "rolling-shutter/" + pkg, "files": demo_files, "tests": tests,
+        "demo": {"package_dir": "rolling-shutter/" + pkg, "file_dirs": {f: "rolling-shutter/" + q for f, q in filepkg.items()}, "files": demo_files, "tests": tests,
                  "how_to_run": "copy demo/*.go into rolling-shutter/%s/ of a worktree and run: go test -vet=off -count=1 -run '%s' ./%s/" % (pkg, run_re, pkg)},
         "confirmed_by_me": {
             "what_i_ran": "tools/ingest_seeded.py: scratch worktree of /repo HEAD; demo on the unchanged tree; git apply patch.diff; go build ./...; demo with the change; " + res["tests_with_change"]["cmd"],
